@@ -44,6 +44,7 @@ def analyse(case, io):
     flushed = {}        # (kind, idx) -> number of _flush runs
     sync_stack = []     # [(task, target)]
     pend_first = []     # [(yield id, [task leaves first scheduled by that yield, written order])]
+    lazyruns = {}       # lazy future -> number of runs of its value provider
     reawaited = set()   # tasks awaited a second time (another yield, or a synchronous value()) before they started
     start_seq = []      # tasks in start order
     itemdone = {}       # cid -> count
@@ -144,6 +145,12 @@ def analyse(case, io):
                 item_root[cid] = len(roots) - 1
             if a[1] in ("const", "error"):
                 pass
+        elif n == "AuxLazyRun":
+            c = _t(a[0])
+            lazyruns[c] = lazyruns.get(c, 0) + 1
+            if lazyruns[c] > 1:
+                add("C10:compute-once", "lazy-provider-ran-twice",
+                    "the value provider of future %s was run %d times" % (list(c), lazyruns[c]))
         elif n == "AuxLazyDone":
             done[_t(a[0])] = "lazy-done"
         elif n == "AuxYield":
